@@ -158,6 +158,7 @@ class EqualityComparer:
                         if isinstance(dim1, Array)
                         else dim1 == dim2
                         for dim1, dim2 in zip(expr1.shape, expr2.shape, strict=True))
+                and expr1.dtype == expr2.dtype
                 and expr1.tags == expr2.tags
                 and expr1.axes == expr2.axes
                 and expr1.var_to_reduction_descr == expr2.var_to_reduction_descr
@@ -227,6 +228,7 @@ class EqualityComparer:
 
     def map_reshape(self, expr1: Reshape, expr2: Reshape) -> bool:
         return (expr1.newshape == expr2.newshape
+                and expr1.order == expr2.order
                 and self.rec(expr1.array, expr2.array)
                 and expr1.tags == expr2.tags
                 and expr1.axes == expr2.axes
@@ -248,6 +250,12 @@ class EqualityComparer:
                     expr1.matrix.elem_col_indices, expr2.matrix.elem_col_indices)
                 and self.rec(expr1.matrix.row_starts, expr2.matrix.row_starts)
                 and self.rec(expr1.array, expr2.array)
+                and expr1.matrix.shape == expr2.matrix.shape
+                and expr1.matrix.dtype == expr2.matrix.dtype
+                and expr1.matrix.tags == expr2.matrix.tags
+                and expr1.matrix.axes == expr2.matrix.axes
+                and expr1.reduction_var == expr2.reduction_var
+                and expr1.reduction_descr == expr2.reduction_descr
                 and expr1.tags == expr2.tags
                 and expr1.axes == expr2.axes)
 
@@ -302,6 +310,7 @@ class EqualityComparer:
                 and expr1.shape == expr2.shape
                 and expr1.dtype == expr2.dtype
                 and expr1.tags == expr2.tags
+                and expr1.axes == expr2.axes
                 )
 
     def map_function_definition(
@@ -326,7 +335,9 @@ class EqualityComparer:
     def map_named_call_result(
             self, expr1: NamedCallResult, expr2: NamedCallResult) -> bool:
         return (expr1.name == expr2.name
-                and self.rec(expr1._container, expr2._container))
+                and self.rec(expr1._container, expr2._container)
+                and expr1.tags == expr2.tags
+                and expr1.axes == expr2.axes)
 
 # }}}
 
